@@ -245,7 +245,8 @@ def measure(structure3d, K=None, model=None):
             if _same_identity(ea[0], eb[0]):
                 continue
             for (dn, ac) in ((ea, eb), (eb, ea)):
-                if dn[2] and (ac[4] or ac[5]):
+                # only a contact whose donor atom has a class rule can be classified and consume its atoms
+                if dn[2] and (ac[4] or ac[5]) and K["bph_rule"].get(dn[0]["letter"], {}).get(dn[1]) is not None:
                     kd, ka = (dn[0]["idx"], dn[1]), (ac[0]["idx"], ac[1])
                     deg_d[kd] = deg_d.get(kd, 0) + 1
                     deg_a[ka] = deg_a.get(ka, 0) + 1
@@ -275,6 +276,8 @@ def measure(structure3d, K=None, model=None):
                 if dn[2] and (ac[4] or ac[5]):
                     L = dn[0]["letter"]
                     rule = K["bph_rule"].get(L, {}).get(dn[1])
+                    if rule is None:
+                        continue            # no class rule for this donor atom (O2'): never a base-phosphate/ribose contact
                     tf, tv = "na", None
                     if rule is not None:
                         if rule[0] == rule[1]:
